@@ -261,24 +261,36 @@ def async_gate(ctx, report, rule, facts, config):
             report.ob(rule, "state-inspected/%s" % b.qname, ok, "%s %s" % (b.qname, hit[1]), site=b.loc(hit[0]), config=config)
     report.floor(rule, "bodies inspecting the state", n, 3, config=config)
     # (b) every accessor takes the state back (blocking) on every path before using it
+    from . import semq as Q
+    from .semcov import LIFECYCLE_NAMES
+    from .sem import Evaluator, Policy
     inner = facts.one(A.AD_DATA + "::inner")
-    for name in ("setup", "wait", "wait_without_tl", "world", "world_mut", "mut_res"):
+    data_field = ("field", ("param", 1), "data", A.AD)
+    for name in ("setup", "wait", "wait_without_tl", "world", "world_mut", "mut_res", "res"):
         b = facts.one(A.AD + "::" + name)
         report.touched(b, config)
-        bt = prog.bt(b)
-        cs = [bb for bb, t in b.normal_calls() if Callee(t["func"]).key == inner.key and bt.call_args(bb)[0] == ("field", ("param", 1), "data", A.AD)]
-        cnt = bt.cfg.count(lambda x: x in cs) if cs else (0, 0)
-        ok = cnt is not None and cnt[0] >= 1
-        # returned references are rooted in the state taken back
-        report.ob(rule, "blocks-first/%s" % name, ok, "every path calls the blocking self.data.inner() before returning" if ok else
-                  "AsyncDispatcher::%s can proceed without taking the state back from the background job (inner() calls per path: %s)" % (name, cnt), site=b.loc(), config=config)
-        if name in ("world", "world_mut", "mut_res"):
-            ret = bt.local(0)
-            okr = ret[0] == "field" and ret[2] == "world" and ret[1][0] == "call" and ret[1][1] in cs
-            report.ob(rule, "returns-state/%s" % name, okr, "returns &inner().world" if okr else "returns %s" % (ret,), site=b.loc(), config=config)
-    b = facts.one(A.AD + "::res")
-    cs = [Callee(t["func"]) for bb, t in b.normal_calls()]
-    report.ob(rule, "blocks-first/res", len(cs) == 1 and cs[0].key == facts.one(A.AD + "::world").key, "res() delegates to world()", site=b.loc(), config=config)
+        ev = Evaluator(facts, Policy(opaque_names=LIFECYCLE_NAMES - set(["wait"])))
+        ends = [e for e in ev.eval(b) if e.kind == "return"]
+        pr = []
+        if not ends:
+            pr.append("no normal path")
+        for e in ends:
+            takes = [x for x in e.path.events if x[0] == "call" and x[2].key == inner.key and Q.strip(ev, x[3][0]) == data_field]
+            if not takes:
+                pr.append("a path returns without the blocking self.data.inner()")
+                continue
+            first = e.path.events.index(takes[0])
+            sysnames = LIFECYCLE_NAMES - set(["sender", "inner", "inner_noblock", "wait", "reads", "writes"])
+            early = Q.calls_in(e.path.events[:first], lambda c: c.name in sysnames, deep=True)
+            if early:
+                pr.append("systems are touched before the state is taken back")
+            if name in ("world", "world_mut", "mut_res", "res"):
+                r = Q.strip(ev, e.ret)
+                if not (r[0] == "field" and r[2] == "world" and r[1] in [x[4] for x in takes]):
+                    pr.append("what is returned is not the world of the state taken back")
+        report.ob(rule, "blocks-first/%s" % name, not pr, "every path calls the blocking self.data.inner() before anything else%s" % (
+            " and returns &inner().world" if name in ("world", "world_mut", "mut_res", "res") else "") if not pr else
+            "AsyncDispatcher::%s can proceed without taking the state back from the background job: %s" % (name, "; ".join(sorted(set(pr)))), site=b.loc(), config=config)
     # (c) dispatch goes through sender, which takes the state back before replacing it
     d = facts.one(A.AD + "::dispatch")
     bt = prog.bt(d)
@@ -322,59 +334,130 @@ def async_block(ctx, report, rule, facts, config):
         got = [n for n, _ in recvs.get(q, [])]
         report.ob(rule, "recv/%s" % q, got == want.get(q), "%s uses %s" % (q, got) if got == want.get(q) else
                   "%s receives with %s (expected %s): completion would not be awaited" % (q, got, want.get(q)), site=(recvs.get(q) or [(None, None)])[0][1], config=config)
-    # inner(): Rx arm installs Data::Inner(recv().expect(..)) into *self; Inner arm returns it
-    ps = enumerate_paths_safe(inner, facts)
-    ok_rx = False
-    ok_in = False
-    for p in ps:
-        v = None
-        for (ct, cv, cn, cb) in p.conds:
-            if ct[0] == "discr":
-                v = cn
-        if v == "Rx":
-            st = [e for e in p.effects if e[0] == "store" and e[2] == ("param", 1)]
-            if len(st) == 1 and st[0][3][0] == "agg" and st[0][3][2] == A.AD_DATA + "::Inner":
-                val = st[0][3][3][0]
-                if val[0] == "call" and S.callee_at(inner, val[1]).name == "expect" and val[2][0][0] == "call" and S.callee_at(inner, val[2][0][1]).name == "recv":
-                    ok_rx = True
-        elif v == "Inner" and p.end == "return":
-            ok_in = p.ret == ("field", ("variant", ("param", 1), "Inner"), "0", A.AD_DATA)
-    report.ob(rule, "inner/Rx-arm", ok_rx, "Rx: *self = Inner(rx.recv().expect(..))" if ok_rx else "the Rx arm of Data::inner does not install the received state", site=inner.loc(), config=config)
-    report.ob(rule, "inner/Inner-arm", ok_in, "Inner: returns the state" if ok_in else "the Inner arm of Data::inner does not return the state", site=inner.loc(), config=config)
+    # inner() / inner_noblock(): what happens in each state
+    from . import semq as Q
+    SELFP = ("param", 1)
+    state = ("field", ("variant", SELFP, "Inner"), "0", A.AD_DATA)
+    chan = ("field", ("variant", SELFP, "Rx"), "0", A.AD_DATA)
+
+    def tabulate(qname, recv_name):
+        b = facts.one(qname)
+        ev, ends = Q.sem(ctx, facts, qname)
+        rows = []
+        for e in ends:
+            st = e.path.variant(SELFP)
+            rc = [x for x in e.path.events if x[0] == "call" and x[2].name == recv_name and ("mpsc" in x[2].path or "mpmc" in x[2].path) and Q.strip(ev, x[3][0]) == chan]
+            other = [x for x in e.path.events if x[0] == "call" and x[2].name in ("recv", "try_recv", "recv_timeout", "try_iter", "iter") and ("mpsc" in x[2].path or "mpmc" in x[2].path) and x not in rc]
+            got = e.path.variant(rc[0][4]) if rc else None
+            err = None
+            if rc and got == "Err":
+                err = e.path.variant(("field", ("variant", rc[0][4], "Err"), "0", "std::result::Result"))
+            stores = [x for x in e.path.events if x[0] == "store" and x[2] == SELFP]
+            installed = None
+            if stores:
+                v = stores[-1][3]
+                if rc and v[0] == "agg" and v[2] == A.AD_DATA + "::Inner" and Q.strip(ev, v[3][0]) == ("field", ("variant", rc[0][4], "Ok"), "0", "std::result::Result"):
+                    installed = "received"
+                else:
+                    installed = "other"
+            rec = [x for x in e.path.events if x[0] == "call" and x[2].key == b.key and Q.strip(ev, x[3][0]) == SELFP]
+            rows.append(dict(end=e.kind, state=st, recv=len(rc), other=len(other), got=got, err=err, installed=installed, ret=e.ret, rec=rec, ev=ev))
+        return b, ev, rows
+
+    inner, ev, rows = tabulate(A.AD_DATA + "::inner", "recv")
+    pr_rx, pr_in = [], []
+    seen = set()
+    for r in rows:
+        if r["other"]:
+            pr_rx.append("the channel is read in another way than the blocking recv()")
+        if r["state"] == "Inner":
+            seen.add("Inner")
+            if not (r["end"] == "return" and Q.strip(ev, r["ret"]) == state and not r["recv"] and r["installed"] is None):
+                pr_in.append("with the state at home, inner() does not simply return it")
+        elif r["state"] == "Rx":
+            if r["recv"] != 1:
+                pr_rx.append("with the job in flight, recv() is called %d time(s)" % r["recv"])
+            elif r["got"] == "Ok":
+                seen.add("Rx-Ok")
+                back = (r["rec"] and r["ret"] == r["rec"][-1][4]) or _is_received_state(ev, r)
+                if not (r["end"] == "return" and r["installed"] == "received" and back):
+                    pr_rx.append("the received state is not installed into *self and handed out")
+            elif r["got"] == "Err":
+                seen.add("Rx-Err")
+                if r["end"] != "diverge" or r["installed"] is not None:
+                    pr_rx.append("a dropped sender does not end in a panic")
+            else:
+                pr_rx.append("the outcome of recv() is not examined")
+        else:
+            pr_rx.append("a path does not depend on the state")
+    if not set(["Rx-Ok", "Rx-Err"]) <= seen:
+        pr_rx.append("missing outcome(s) of recv(): %s" % sorted(set(["Rx-Ok", "Rx-Err"]) - seen))
+    if "Inner" not in seen:
+        pr_in.append("no path for the state at home")
+    report.ob(rule, "inner/Rx-arm", not pr_rx, "Rx: *self = Inner(rx.recv().expect(..)), then the state" if not pr_rx else
+              "the Rx arm of Data::inner does not install the received state: %s" % "; ".join(sorted(set(pr_rx))), site=inner.loc(), config=config)
+    report.ob(rule, "inner/Inner-arm", not pr_in, "Inner: returns the state" if not pr_in else "the Inner arm of Data::inner does not return the state", site=inner.loc(), config=config)
     # running() == inner_noblock().is_none()
-    r = facts.one(A.AD + "::running")
-    bt = prog.bt(r)
-    ret = bt.local(0)
-    ok = (ret[0] == "call" and bt.callee(ret[1]).name == "is_none" and ret[2][0][0] == "call" and bt.callee(ret[2][0][1]).name == "inner_noblock"
-          and ret[2][0][2] == (("field", ("param", 1), "data", A.AD),))
-    report.ob(rule, "running", ok, "running() = self.data.inner_noblock().is_none()" if ok else "running() is %s" % (ret,), site=r.loc(), config=config)
-    # inner_noblock: Empty -> None, value -> installed
+    r_ = facts.one(A.AD + "::running")
     nb = facts.one(A.AD_DATA + "::inner_noblock")
-    cl = facts.closures_of(nb, False)
-    okc = False
-    if len(cl) == 1:
-        tbl = {}
-        for p in enumerate_paths(cl[0], facts):
-            for (ct, cv, cn, cb) in p.conds:
-                if ct[0] == "discr":
-                    tbl[cn] = p.ret
-        e_, d_ = tbl.get("Empty"), tbl.get("Disconnected")
-        okc = (e_ and e_[0] == "agg" and e_[2] == "std::result::Result::Ok" and e_[3][0][0] == "agg" and e_[3][0][2] == "std::option::Option::None"
-               and d_ and d_[0] == "agg" and d_[2] == "std::result::Result::Err")
-    report.ob(rule, "inner_noblock/empty->None", bool(okc), "Empty -> Ok(None) (still running), Disconnected -> Err" if okc else "the try_recv error mapping changed", site=nb.loc(), config=config)
-    ps = enumerate_paths_safe(nb, facts)
-    seen = {}
-    for p in ps:
-        key = tuple((cn or cv) for (ct, cv, cn, cb) in p.conds if ct[0] == "discr")
-        if p.end == "return":
-            seen[key] = p
-    ok_none = any(k[:1] == ("Rx",) and k[-1:] == ("None",) and p.ret[0] == "agg" and p.ret[2] == "std::option::Option::None" for k, p in seen.items())
-    ok_some = any(k == ("Inner",) and p.ret[0] == "agg" and p.ret[2] == "std::option::Option::Some" for k, p in seen.items())
-    ok_inst = any(k[:1] == ("Rx",) and k[-1:] == ("Some",) and any(e[0] == "store" and e[2] == ("param", 1) and e[3][0] == "agg" and e[3][2] == A.AD_DATA + "::Inner" for e in p.effects)
-                  for k, p in seen.items())
-    report.ob(rule, "inner_noblock/table", ok_none and ok_some and ok_inst,
-              "Inner -> Some(state); Rx+nothing received -> None; Rx+received -> state installed, then Some" if ok_none and ok_some and ok_inst else
-              "inner_noblock outcomes: none-while-running=%s, some-when-home=%s, installs-received=%s" % (ok_none, ok_some, ok_inst), site=nb.loc(), config=config)
+    ev2, ends2 = Q.sem(ctx, facts, A.AD + "::running", opaque=[nb.key])
+    pr = []
+    for e in ends2:
+        if e.kind != "return":
+            pr.append("running() can panic")
+            continue
+        cs = [x for x in e.path.events if x[0] == "call" and x[2].key == nb.key and Q.strip(ev2, x[3][0]) == ("field", ("param", 1), "data", A.AD)]
+        v = e.path.variant(cs[0][4]) if len(cs) == 1 else None
+        if not ((v == "None" and e.ret == ("int", 1)) or (v == "Some" and e.ret == ("int", 0))):
+            pr.append("the answer is not `inner_noblock() found nothing`")
+    report.ob(rule, "running", not pr and len(ends2) >= 2, "running() = self.data.inner_noblock().is_none()" if not pr else "running() is not inner_noblock().is_none(): %s" % "; ".join(sorted(set(pr))), site=r_.loc(), config=config)
+    # inner_noblock: Empty -> None, value -> installed
+    nbb, ev3, rows = tabulate(A.AD_DATA + "::inner_noblock", "try_recv")
+    pe, pt = [], []
+    seen = set()
+    for r in rows:
+        if r["other"]:
+            pt.append("the channel is read in another way than try_recv()")
+        some = r["end"] == "return" and r["ret"][0] == "agg" and r["ret"][2] == "std::option::Option::Some"
+        none = r["end"] == "return" and r["ret"][0] == "agg" and r["ret"][2] == "std::option::Option::None"
+        if r["state"] == "Inner":
+            seen.add("home")
+            if not (some and Q.strip(ev3, r["ret"][3][0]) == state and not r["recv"]):
+                pt.append("with the state at home the answer is not Some(state)")
+        elif r["state"] == "Rx":
+            if r["recv"] != 1:
+                pt.append("with the job in flight, try_recv() is called %d time(s)" % r["recv"])
+            elif r["got"] == "Ok":
+                seen.add("received")
+                back = (r["rec"] and r["ret"] == r["rec"][-1][4]) or (some and _is_received_state(ev3, dict(r, ret=r["ret"][3][0])))
+                if not (r["installed"] == "received" and back):
+                    pt.append("a received state is not installed and handed out")
+            elif r["got"] == "Err" and r["err"] == "Empty":
+                seen.add("empty")
+                if not (none and r["installed"] is None):
+                    pe.append("an empty channel (still running) does not give None")
+            elif r["got"] == "Err" and r["err"] == "Disconnected":
+                seen.add("dropped")
+                if r["end"] != "diverge":
+                    pe.append("a dropped sender does not end in a panic")
+            else:
+                pe.append("the error of try_recv() is not told apart (%s / %s)" % (r["got"], r["err"]))
+    for k in ("empty", "dropped"):
+        if k not in seen:
+            pe.append("no path for %s" % k)
+    report.ob(rule, "inner_noblock/empty->None", not pe, "Empty -> None (still running), Disconnected -> panic" if not pe else "the try_recv error mapping changed: %s" % "; ".join(sorted(set(pe))), site=nbb.loc(), config=config)
+    ok = not pt and set(["home", "received"]) <= seen
+    report.ob(rule, "inner_noblock/table", ok,
+              "Inner -> Some(state); Rx+nothing received -> None; Rx+received -> state installed, then Some" if ok else
+              "inner_noblock outcomes: %s (seen %s)" % ("; ".join(sorted(set(pt))), sorted(seen)), site=nbb.loc(), config=config)
+
+
+def _is_received_state(ev, r):
+    """The returned reference is the payload of the value that was just received (the state now installed in *self)."""
+    from . import semq as Q
+    ret = Q.strip(ev, r["ret"])
+    return bool(ret[0] == "field" and ret[1][0] == "variant" and ret[1][2] == "Ok" and Q.callee_of(ev, ret[1][1]) is not None
+                and Q.callee_of(ev, ret[1][1]).name in ("recv", "try_recv"))
 
 
 def enumerate_paths_safe(body, facts):
